@@ -48,6 +48,10 @@ func (n Number) String() string {
 		return "-Infinity"
 	}
 
+	if n == 0 {
+		return "0"
+	}
+
 	return strconv.FormatFloat(float64(n), 'f', -1, 64)
 }
 
